@@ -423,8 +423,13 @@ def differential(check, ops, impl_bin, oracle, signature=None, scope=None, neigh
         # the harness may die on an op (sanitizer report, unexpected signal): that op's result is
         # `<crash>`, the rest of the chunk is re-run after it (stateless engines only)
         il, crashes, rest, rc, ierr = [], [], ch, 0, ""
-        for _ in range(12):
-            rc, part, ierr = run_lines(impl_bin, "\n".join(rest) + "\n", env_extra=impl_env)
+        for attempt in range(14):
+            env = dict(impl_env or {})
+            if attempt > 0:
+                env["VH_FLUSH"] = "1"   # after a crash: flush per line so the crashing op can be located
+            rc, part, ierr = run_lines(impl_bin, "\n".join(rest) + "\n", env_extra=env)
+            if attempt == 0 and not (rc == 0 and len(part) == len(rest)):
+                continue  # re-run the same ops with per-line flushing
             if rc == 0 and len(part) == len(rest):
                 il += part
                 rest = []
